@@ -1939,6 +1939,14 @@ class DFA(fa.FA):
             The DFA accepting the desired language.
         """
 
+        if "" in substrings:
+            # Every string contains (and ends with) the empty string
+            return (
+                cls.universal_language(input_symbols)
+                if contains
+                else cls.empty_language(input_symbols)
+            )
+
         class OutNode:
             def __init__(self, keyword: str, next_node: Optional[OutNode]) -> None:
                 self.keyword: str = keyword
